@@ -210,11 +210,6 @@ example : observe [.lock 1 0, .condWait 1 0 0 true, .condTimeout 1 0, .signal 0 
 
 /-! ## Part 2 — refinement to the abstract condition variable, whole histories -/
 
-/-- `Reach w s`: some history of S4U calls leads the abstract machine from its initial state to `s` and the
-implementation model from `w0` to `w`, with the same answers -/
-def Reach (w : World) (s : ASt) : Prop :=
-  ∃ es o, arun ASt.init es = .ok (s, o) ∧ w0.run (es.map CEv.toEv) = .ok (w, o)
-
 /-- **Refinement, every history.**  Whatever history the abstract condition-variable machine accepts, the
 implementation model (ConditionVariableImpl + MutexImpl as composed by the S4U calls) executes it with the same answers
 in the same order; the kernel state it reaches means the abstract state reached (`Abs`: queues are the FIFOs of
@@ -222,14 +217,6 @@ waiters/lockers, every acquisition registered); and the invariant `AInv` holds t
 theorem cond_refines_spec (es : List CEv) (s : ASt) (o : Outs) (h : arun ASt.init es = .ok (s, o)) :
     ∃ w, w0.run (es.map CEv.toEv) = .ok (w, o) ∧ Abs w s ∧ AInv s :=
   sim_run es abs_init ainv_init h
-
-theorem reach_abs {w : World} {s : ASt} (hr : Reach w s) : Abs w s ∧ AInv s := by
-  obtain ⟨es, o, h1, h2⟩ := hr
-  obtain ⟨w1, hw1, ha, hi⟩ := cond_refines_spec es s o h1
-  rw [h2] at hw1
-  simp only [Except.ok.injEq, Prod.mk.injEq] at hw1
-  rw [hw1.1]
-  exact ⟨ha, hi⟩
 
 /-- converse direction, at every reached state: what the implementation does on an event of the domain is what the
 abstract machine does (same answers), and the states stay related -/
@@ -398,12 +385,6 @@ theorem reached_state_shape {w : World} {s : ASt} (hr : Reach w s) :
   exact ⟨ha.cq, ha.mq, hi.cvNd, fun c x hx => by rw [ha.own]; exact hi.own c x hx⟩
 
 /-! ### non-vacuity of Part 2 -/
-
-/-- observable summary of the abstract machine after a history, in the shape of `observe` (C06/Model.lean):
-(waiters of c, owner of m, blocked lockers of m, answers) -/
-def aobserve (es : List CEv) (c m : Nat) : Option (List Aid × Option Aid × List Aid × Outs) :=
-  (arun ASt.init es).toOption.map fun r =>
-    ((r.1.cv c).map (·.issuer), (r.1.mx m).owner, (r.1.mx m).queue.map (·.1), r.2)
 
 /-- two waiters (the second timed) while actor 3 holds the mutex, notify_all, unlock: the abstract machine accepts the
 history (so `Reach` is inhabited at each prefix and the hypotheses `blk a = none` hold for the notifier), both waiters
